@@ -5,13 +5,13 @@ ID = "C03"
 RULE = ("Generated programs (1-4 threads + main, all four flavors) mixing read-side sections over RCU-published objects, call_rcu() of unpublished "
         "objects (callbacks free the object; a quarter re-enqueue a second-stage callback), per-thread helpers (create/set/clear/free, RT or "
         "futex-woken), per-CPU helpers on a simulated 2-CPU machine (create_all/free_all, set_cpu/unset+grace period+free), rcu_barrier and "
-        "grace-period polls, with generated sched_getcpu values; final drain either passive (yield until all callbacks ran, no API call) or by "
+        "grace-period polls, with generated sched_getcpu values; one program in four (C04: five) is a teardown program (main creates per-CPU helpers, the other threads call call_rcu(), main destroys the helpers again); one case in eight contains a burst of 255-8193 callbacks from one thread; final drain either passive (yield until all callbacks ran, no API call) or by "
         "rcu_barrier(). Oracles: each callback invoked exactly once with the rcu_head it was registered with; no section begun before call_rcu() "
         "entry still open at invocation; shadow heap (object freed by its callback is never touched again; helper freed under an in-flight "
         "call_rcu); every callback has run at the end (else deadlock/stuck/hang). Non-trivial: a callback had to wait for a section open at its "
         "call_rcu(), or an enqueue woke a sleeping helper.  Up to 2 injected futex faults per case (k-th blocking FUTEX_WAIT returns spuriously or with EINTR). distinct = distinct case text.")
 ASSUMPTIONS = G.E1_ASSUMPTIONS + ["bounded: <=4 threads + main, <=12 ops per thread, chain depth <=1, <=2 simulated CPUs"]
 EXAMPLES = {"quick": 360, "thorough": 4000}
-example = C.make_example("callrcu")
+example = C.make_example(["callrcu", "callrcu", "callrcu", "teardown"])
 judge = C.make_judge(("callback", "object", "heap", "free"), lambda text, res: G.flag(res, 0) or G.flag(res, 49))
 confirm = C.confirm
